@@ -1,19 +1,35 @@
 #!/usr/bin/env python3
-"""Re-run every check on every seeded change and rewrite meta.json's detected_by (so DESIGN §9.3
-reflects the rules as they are now)."""
+"""refresh_seeds.py [-j N] [GLOB]: re-run every check on every seeded change and rewrite meta.json's
+detected_by (so DESIGN §9.3 reflects the rules as they are now)."""
 import json, os, sys, glob
+from concurrent.futures import ProcessPoolExecutor
 VERIF = os.path.dirname(os.path.dirname(os.path.abspath(__file__)))
 sys.path.insert(0, VERIF)
 from tools import mut
 from rules import registry
-bad = 0
-for d in sorted(glob.glob(os.path.join(VERIF, "seeded", "*"))):
+
+
+def one(d):
     mp = os.path.join(d, "meta.json")
     m = json.load(open(mp))
     fired = mut.run_seed(os.path.join(d, "patch.diff"), sorted(registry.QUICK))
     m["detected_by"] = {q: k for q, k in fired.items() if k}
-    m["caught_by_own_property_check"] = bool(fired.get(m["breaks_property"]))
+    m["caught_by_own_property_check"] = bool(fired.get(m["breaks_property"])) and "PATCH-DOES-NOT-APPLY" not in fired.get(m["breaks_property"], [])
     json.dump(m, open(mp, "w"), indent=1)
-    print(os.path.basename(d), "own:", m["caught_by_own_property_check"], sorted(m["detected_by"]))
-    bad += not m["caught_by_own_property_check"]
-print("not caught by own check:", bad)
+    return os.path.basename(d), m["caught_by_own_property_check"], sorted(m["detected_by"])
+
+
+if __name__ == "__main__":
+    a = sys.argv[1:]
+    j = 8
+    if a[:1] == ["-j"]:
+        j = int(a[1])
+        a = a[2:]
+    pat = a[0] if a else os.path.join(VERIF, "seeded", "*")
+    dirs = sorted(glob.glob(pat))
+    bad = 0
+    with ProcessPoolExecutor(j) as ex:
+        for name, own, det in ex.map(one, dirs):
+            print(name, "own:", own, det, flush=True)
+            bad += not own
+    print("not caught by own check:", bad)
